@@ -1,5 +1,8 @@
 (* C15: non-vacuity examples and the pre-fix generator variant *)
-From CV Require Import Layout.Layout Layout.BytesProofs Layout.LayoutProofs Layout.LayoutMain.
+From CV Require Import Layout.Layout.
+From CV Require Import Layout.BytesProofs.
+From CV Require Import Layout.LayoutProofs.
+From CV Require Import Layout.LayoutMain.
 Open Scope Z_scope.
 
 (* an Int16 union member (discriminant value 3 at 16-bit offset 1) at offset 2 (= bytes 4..5),
